@@ -411,7 +411,7 @@ func RunJob(P *Program, spec JobSpec, kf map[string]bool) *JobResult {
 	tt := NewTermTable()
 	sname := spec.Solver
 	if sname == "" {
-		sname = "z3"
+		sname = "z3-new"
 	}
 	to := spec.SolverTimeoutMs
 	if to == 0 {
